@@ -7,8 +7,11 @@
 (*           (1..53), it changes on Mondays only, quarter is 1..4 with             *)
 (*           January-March = 1                                                     *)
 (*   dst   : in the rule zones the offset is one of two values, changes only at a  *)
-(*           rule instant (exactly two change days per year), and both sides of a  *)
-(*           change are a Sunday on the local calendar                             *)
+(*           rule instant (exactly two change days in every year; every day of     *)
+(*           every sixth year - of every year when Thorough - probed around the   *)
+(*           hours rules use), and both sides of a change are a Sunday on the      *)
+(*           local calendar; a skipped local hour is no reading, a repeated one is *)
+(*           ambiguous                                                             *)
 (*   rt    : Parse(Format(t)) = t truncated to the precision of the layout for     *)
 (*           every layout with date, time and numeric offset, in every zone;       *)
 (*           layouts without offset resolve to t or are ambiguous (repeated hour), *)
@@ -61,7 +64,7 @@ Anchors ==
   /\ Offset(Zone("Australia/Sydney"), Inst(DaysFromCivil(2024, 1, 1), 0)) = 39600
   /\ Offset(Zone("America/New_York"), Inst(DaysFromCivil(2024, 7, 1), 0)) = 0 - 14400
 
-Probe == {0, 3599, 3600, 3601, 21599, 21600, 25199, 25200, 57599, 57600, 86399}
+Probe == {0, 3599, 3600, 21599, 21600, 25199, 25200, 57599, 57600, 86399}
 DstDayLaw(z, d) ==
   LET zd == Zone(z)
       o0 == Offset(zd, Inst(d, 0))
@@ -129,12 +132,12 @@ DurLaw(n) ==
 
 H(g, z, n) == [k |-> "hdr", g |-> g, z |-> z, n |-> n]
 Groups == {H("anchor", "", 0)} \cup {H("day", "", b) : b \in 0..48} \cup {H("dst", z, y) : z \in RuleZones, y \in 1996..2100}
-          \cup {H("rt", z, y) : z \in ZoneNames, y \in IF Thorough THEN 1970..2100 ELSE {1970, 1999, 2000, 2016, 2024, 2038, 2068, 2069, 2100}}
+          \cup {H("rt", z, y) : z \in ZoneNames, y \in IF Thorough THEN 1970..2100 ELSE {1970, 2000, 2024, 2038, 2068, 2069, 2100}}
           \cup {H("dur", "", b) : b \in 0..(IF Thorough THEN 99 ELSE 9)}
 
 RtInstants(z, y) ==
   LET zd == Zone(z)
-      months == IF Thorough THEN 1..12 ELSE {1, 3, 11}
+      months == IF Thorough THEN {1, 3, 7, 11} ELSE {1, 3, 11}
       base == {Norm(DaysFromCivil(y, m, 1), dl - off) : m \in months, dl \in {0 - 1, 0, 45296}, off \in {zd.std, zd.dst}}
       trs == IF zd.kind = "fixed" THEN {}
              ELSE LET tr == Transitions(zd.kind, y) IN
@@ -145,7 +148,8 @@ Cases(h) ==
   CASE h.g = "anchor" -> {[k |-> "anchor"]}
     [] h.g = "day" -> {[k |-> "day", d |-> d] : d \in {d \in (h.n * 1000 - 400)..(h.n * 1000 + 599) : d <= MaxDay + 400}}
     [] h.g = "dst" -> IF DaysFromCivil(h.n, 1, 2) < Zone(h.z).from THEN {}
-                      ELSE {[k |-> "dstday", z |-> h.z, d |-> d] : d \in DaysFromCivil(h.n, 1, 2)..DaysFromCivil(h.n, 12, 31)}
+                      ELSE {[k |-> "dstday", z |-> h.z, d |-> d] :
+                              d \in IF Thorough \/ h.n % 6 = 0 THEN DaysFromCivil(h.n, 1, 2)..DaysFromCivil(h.n, 12, 31) ELSE {}}
                            \cup {[k |-> "dstyear", z |-> h.z, y |-> h.n]}
     [] h.g = "rt" -> {[k |-> "rt", z |-> h.z, t |-> t] : t \in RtInstants(h.z, h.n)}
     [] h.g = "dur" -> {[k |-> "dur", n |-> n] : n \in (h.n * 1000 - 100)..(h.n * 1000 + 899)}
